@@ -94,7 +94,7 @@ class Env:
         shutil.rmtree(self.w, ignore_errors=True)
 
 
-def one_run(sx, h_one, w, cfgtext, opts, uid=0, prep=None, calltimeout=2500, totaltimeout=6000, std_state=None, msglen=None):
+def one_run(sx, h_one, w, cfgtext, opts, uid=0, prep=None, calltimeout=2500, totaltimeout=6000, std_state=None, msglen=None, ncalls=1, stdin_pty=False):
     env = Env(w)
     try:
         if prep:
@@ -106,7 +106,7 @@ def one_run(sx, h_one, w, cfgtext, opts, uid=0, prep=None, calltimeout=2500, tot
             open(res, 'w').close()
             os.chmod(res, 0o666)
             os.chmod(w, 0o777)
-        rep = X.run(sx, w, [h_one, ini, res, str(uid), '1', os.path.join(w, 'devlog')] + ([str(msglen)] if msglen else []), env=dict(H.san_env(w), VERIF_STD_STATE=std_state or ''), opts=list(opts) + ['--skipalloc', '--calltimeout', str(calltimeout), '--totaltimeout', str(totaltimeout)], timeout=totaltimeout / 1000 + 30)
+        rep = X.run(sx, w, [h_one, ini, res, str(uid), str(ncalls), os.path.join(w, 'devlog')] + ([str(msglen)] if msglen else []), env=dict(H.san_env(w), VERIF_STD_STATE=std_state or '', **({'VERIF_STDIN_PTY': '1'} if stdin_pty else {})), opts=list(opts) + ['--skipalloc', '--calltimeout', str(calltimeout), '--totaltimeout', str(totaltimeout)], timeout=totaltimeout / 1000 + 30)
         try:
             rep['result'] = json.load(open(res))
         except Exception:
@@ -265,6 +265,17 @@ def run(ck):
                 if b:
                     ck.violation('C03:%s:cfg=%s:pair=%s:%s+%s:%s' % ('+'.join(b), n, c['name'], dev[1], c2['name'], d2[1]),
                                  {'config': cfg[n], 'first': c, 'first_dev': dev, 'second': c2, 'second_dev': d2, 'sanitizer': rep['san'][:1]})
+    # ---- consecutive calls in one process, stdin on a terminal (tty / utmp lookups take their real paths): whatever a call leaves behind
+    # (a lock, a descriptor, a signal disposition) must not block or signal the calls after it
+    for n, rep in zip(names, pmap(lambda n: one_run(sx, v['h_one'], wdir(), cfg[n], [], ncalls=3, stdin_pty=True), names)):
+        evals += 1
+        b = verdict(rep)
+        if b and ('hang_or_spin' in b or any(x.startswith('blocked') for x in b)):
+            rep = one_run(sx, v['h_one'], wdir(), cfg[n], [], ncalls=3, stdin_pty=True, calltimeout=12000, totaltimeout=30000)
+            b = verdict(rep)
+        outcomes.add((n, 'three_calls_on_a_tty', tuple(b)))
+        if b:
+            ck.violation('C03:%s:cfg=%s:three_consecutive_calls_stdin_tty' % ('+'.join(b), n), {'config': cfg[n], 'report': {k: rep.get(k) for k in ('signals', 'exit_code', 'term_sig', 'blocked_call', 'total_timeout', 'result')}, 'sanitizer': rep['san'][:1]})
     # ---- real sink states, no injection
     def full_queue(env, which):
         p = os.path.join(env.w, which)
